@@ -238,8 +238,11 @@ pub enum WasmQuery {
     ContractInfo { contract_addr: String },
     CodeInfo { code_id: u64 },
 }
+// (cosmwasm-std 2.2.2 with all features: Bank, Custom, Staking, Distribution, Stargate, Ibc, Wasm, Grpc)
+pub struct DistributionQuery { pub raw: Binary }   // its variants carry no information the router looks at
 pub enum QueryRequest<C> {
     Bank(BankQuery),
+    Distribution(DistributionQuery),
     Custom(C),
     Staking(StakingQuery),
     Stargate { path: String, data: Binary },
